@@ -26,16 +26,16 @@ func runC02(c *Ctx, r *Report) {
 	c02R8(c, r, "C02.R8")
 	c02Chain(c, r, "C02.R11")
 	c02HandlersCompile(c, r, "C02.R14")
-	c01R1(c, r, "C02.R10")  // every matcher of an AND-set starts at the first byte received so far (per-matcher freeze/unfreeze)
-	c05R23(c, r, "C02.R15") // the fallback receives the connection with its stream intact: on every path of the route loop the matching deadline is removed before the fallback (or a matched route's handlers) runs, also after an earlier non-terminal match
-	c01R7(c, r, "C02.R16")  // matching continues on the connection as the handlers left it: a handler that built a reader on top of its connection hands on the connection wrapped around that reader on every path (what the reader has buffered would otherwise be missing from the stream later routes are matched on)
-	c01R2(c, r, "C02.R17")  // "on the connection as its handlers left it": leaving matching mode puts the cursor back where matching started - after what earlier handlers consumed, not at the start of the buffer
-	c01R4(c, r, "C02.R18")  // the route chosen is decided on the bytes received: one prefetch is one read - it does not wait for a second chunk when the first came back full (a client that has sent everything would be dropped by the timeout)
+	c01R1(c, r, "C02.R10")   // every matcher of an AND-set starts at the first byte received so far (per-matcher freeze/unfreeze)
+	c05R23(c, r, "C02.R15")  // the fallback receives the connection with its stream intact: on every path of the route loop the matching deadline is removed before the fallback (or a matched route's handlers) runs, also after an earlier non-terminal match
+	c01R7(c, r, "C02.R16")   // matching continues on the connection as the handlers left it: a handler that built a reader on top of its connection hands on the connection wrapped around that reader on every path (what the reader has buffered would otherwise be missing from the stream later routes are matched on)
+	c01R2(c, r, "C02.R17")   // "on the connection as its handlers left it": leaving matching mode puts the cursor back where matching started - after what earlier handlers consumed, not at the start of the buffer
+	c01R4(c, r, "C02.R18")   // the route chosen is decided on the bytes received: one prefetch is one read - it does not wait for a second chunk when the first came back full (a client that has sent everything would be dropped by the timeout)
 	c06Memo(c, r, "C02.R19") // "on the connection as its handlers left it": a verdict remembered in the connection's variables answers for the stream as it was before a handler changed it
-	c01R5(c, r, "C02.R20") // a handler that hands on a new connection builds it on the one it was given: what matching prefetched and nobody consumed stays in the stream the later routes see
-	c08R6(c, r, "C02.R13")  // "matched the bytes received so far": a connection's matching buffer starts empty (a recycled slice keeps the length it was returned with)
-	c13R3(c, r, "C02.R12")  // ... and its stream stays intact afterwards: the matching buffer of a handed-off connection is not recycled while the wrapped listener's consumer still replays from it
-	c13R6(c, r, "C02.R9")   // the hand-off to a wrapped listener is a fallback: it receives the connection with its stream intact
+	c01R5(c, r, "C02.R20")   // a handler that hands on a new connection builds it on the one it was given: what matching prefetched and nobody consumed stays in the stream the later routes see
+	c08R6(c, r, "C02.R13")   // "matched the bytes received so far": a connection's matching buffer starts empty (a recycled slice keeps the length it was returned with)
+	c13R3(c, r, "C02.R12")   // ... and its stream stays intact afterwards: the matching buffer of a handed-off connection is not recycled while the wrapped listener's consumer still replays from it
+	c13R6(c, r, "C02.R9")    // the hand-off to a wrapped listener is a fallback: it receives the connection with its stream intact
 }
 
 type innerRes struct {
